@@ -333,6 +333,70 @@ theorem AsmCtx.depthOK (c : AsmCtx t roots key U st rootIdx rst) :
 
 end
 
+/-- pigeonhole: an injective map from `[0, m)` into `[0, n)` has `m ≤ n` -/
+theorem pigeonhole : ∀ (n m : Nat) (f : Nat → Nat), (∀ i, i < m → f i < n) →
+    (∀ i j, i < m → j < m → f i = f j → i = j) → m ≤ n := by
+  intro n
+  induction n with
+  | zero =>
+    intro m f hr _
+    rcases Nat.eq_zero_or_pos m with h | h
+    · omega
+    · have := hr 0 h; omega
+  | succ n ih =>
+    intro m f hr hinj
+    rcases Nat.eq_zero_or_pos m with h | hpos
+    · omega
+    · -- remove the last element of the domain and, if hit, swap the value `n` away
+      let v := f (m - 1)
+      let g : Nat → Nat := fun i => if f i = n then v else f i
+      have hg : ∀ i, i < m - 1 → g i < n := by
+        intro i hi
+        simp only [g]
+        split
+        · rename_i hfi
+          have hv : v < n + 1 := hr (m - 1) (by omega)
+          have hne : v ≠ n := by
+            intro hvn
+            have := hinj i (m - 1) (by omega) (by omega) (by rw [hfi]; exact hvn.symm)
+            omega
+          omega
+        · have := hr i (by omega); omega
+      have hginj : ∀ i j, i < m - 1 → j < m - 1 → g i = g j → i = j := by
+        intro i j hi hj hij
+        simp only [g] at hij
+        by_cases h1 : f i = n <;> by_cases h2 : f j = n
+        · exact hinj i j (by omega) (by omega) (by rw [h1, h2])
+        · simp only [h1, h2, if_true, if_false] at hij
+          have := hinj (m - 1) j (by omega) (by omega) hij
+          omega
+        · simp only [h1, h2, if_true, if_false] at hij
+          have := hinj i (m - 1) (by omega) (by omega) hij
+          omega
+        · simp only [h1, h2, if_false] at hij
+          exact hinj i j (by omega) (by omega) hij
+      have := ih (m - 1) g hg hginj
+      omega
+
+
+/-- no more cells are stored than the presentation has rows -/
+theorem AsmCtx.size_le {t : Table} {roots : List Nat} {key : Nat → Option K} {U : Nat → Cell} {st : ImpState K}
+    {rootIdx : List Nat} {rst : RState} (c : AsmCtx t roots key U st rootIdx rst) : rst.out.size ≤ t.size := by
+  apply pigeonhole t.size rst.out.size (fun k => st.rows[rst.out[k]!]!)
+  · intro k hk
+    have := (c.hinv.out_ok k hk).1
+    exact (c.hi.row_ok _ this).1
+  · intro a b ha hb hab
+    obtain ⟨ha1, ha2⟩ := c.hinv.out_ok a ha
+    obtain ⟨hb1, hb2⟩ := c.hinv.out_ok b hb
+    have : rst.out[a]! = rst.out[b]! := by
+      apply impSem_inj t key U st c.hk c.hi _ _ ha1 hb1
+      simp only [impSem]
+      rw [hab]
+    rw [this, hb2] at ha2
+    omega
+
+
 /-- import and revisit succeed on every valid input, for every `special` -/
 theorem orderWith_ok (t : Table) (roots : List Nat) (key : Nat → Option K) (special : Array Int → Nat → Bool)
     (U : Nat → Cell) (hv : ValidLayout t roots) (hs : IsSem t U) (hk : KeyOK t key U) :
@@ -381,6 +445,8 @@ structure OrderValid (t : Table) (roots : List Nat) (o : Ordered) : Prop where
   the positions are in bijection with the structurally distinct sub-cells of the roots -/
   sub : ∀ p, p < o.table.size → ∃ r ∈ roots, ∃ j, TDesc t r j ∧
     Table.unfold o.table (o.table.size + 1) p = Table.unfold t (t.size + 1) j
+  /-- not more cells than the presentation has rows -/
+  size_le : o.table.size ≤ t.size
 
 theorem orderWith_valid (t : Table) (roots : List Nat) (key : Nat → Option K) (special : Array Int → Nat → Bool)
     (hv : ValidLayout t roots) (hk : KeyInjOn t key) :
@@ -408,7 +474,7 @@ theorem orderWith_valid (t : Table) (roots : List Nat) (key : Nat → Option K) 
         ((assemble t st.rows st.cache rst rootIdx).table.size + 1) p = some (fileSem (semF t (t.size + 1)) st rst p) :=
     fun p hp => unfold_of_sem _ _ hsem hfF _ p (by rw [hsz]; exact hp) (by omega)
   obtain ⟨hr1, hr2⟩ := c.roots_ok
-  refine ⟨⟨⟨?_, ?_, c.depthOK⟩, ?_⟩, ?_, ?_, ?_, ?_⟩
+  refine ⟨⟨⟨?_, ?_, c.depthOK⟩, ?_⟩, ?_, ?_, ?_, ?_, by rw [hsz]; exact c.size_le⟩
   · intro p hp
     have hp' : p < rst.out.size := by rw [hsz] at hp; exact hp
     rw [get!_of_getElem _ p hp, hsz]
